@@ -3,20 +3,28 @@ Import ListNotations.
 From TV Require Import C28.Model.
 Local Open Scope N_scope.
 
-Lemma lstrip_suffix : forall l, exists h, l = h ++ lstrip_slash l.
+(* ---------- strip ---------- *)
+Lemma lstrip_suffix : forall l, exists h, l = h ++ lstrip_slash l /\ Forall (eq SLASH) h.
 Proof.
-  induction l as [|c l [h IH]]; [exists []; reflexivity|].
-  cbn [lstrip_slash]. destruct (c =? SLASH).
-  - exists (c :: h). cbn [app]. f_equal. exact IH.
-  - exists []. reflexivity.
+  induction l as [|c l [h [IH Hh]]]; [exists []; split; [reflexivity|constructor]|].
+  cbn [lstrip_slash]. destruct (c =? SLASH) eqn:E.
+  - exists (c :: h). split; [cbn [app]; f_equal; exact IH|].
+    constructor; [symmetry; apply N.eqb_eq; exact E|exact Hh].
+  - exists []. split; [reflexivity|constructor].
 Qed.
 
-Lemma rstrip_prefix : forall p, exists t, p = rstrip_slash p ++ t.
+Lemma rstrip_prefix : forall p, exists t, p = rstrip_slash p ++ t /\ Forall (eq SLASH) t.
 Proof.
-  intro p. unfold rstrip_slash. destruct (lstrip_suffix (rev p)) as [h E].
-  exists (rev h). rewrite <- rev_app_distr, <- E, rev_involutive. reflexivity.
+  intro p. unfold rstrip_slash. destruct (lstrip_suffix (rev p)) as [h [E Hh]].
+  exists (rev h). split.
+  - rewrite <- rev_app_distr, <- E, rev_involutive. reflexivity.
+  - apply Forall_rev. exact Hh.
 Qed.
 
+Lemma slashes_shape : forall t, Forall (eq SLASH) t -> t = [] \/ exists t', t = SLASH :: t'.
+Proof. intros t H. destruct H as [|x t Hx _]; [left; reflexivity|right; exists t; subst; reflexivity]. Qed.
+
+(* ---------- location shapes ---------- *)
 Lemma same_host_path_safe : forall loc, same_host_path loc = true -> safe_location loc = true.
 Proof.
   intros [|a [|b r]] H; cbn in H; try discriminate.
@@ -40,11 +48,38 @@ Proof.
     cbn [app same_host_path]. rewrite N.eqb_refl, H2. reflexivity.
 Qed.
 
-Lemma utf8_head_not_slash : forall b, b <> SLASH -> exists x r, utf8_small b = x :: r /\ x <> SLASH.
+(* ---------- UTF-8 ---------- *)
+Lemma utf8_cp_ascii : forall c, c < 128 -> utf8_cp c = [c].
+Proof. intros c H. unfold utf8_cp. apply N.ltb_lt in H. rewrite H. reflexivity. Qed.
+
+Lemma utf8_cp_high : forall c, 128 <= c -> Forall (fun b => 128 <= b) (utf8_cp c) /\ exists x r, utf8_cp c = x :: r /\ 192 <= x.
 Proof.
-  intros b H. unfold utf8_small. destruct (N.ltb_spec b 128).
-  - exists b, []. auto.
-  - exists (192 + b / 64), [128 + b mod 64]. split; [reflexivity|]. unfold SLASH. remember (b / 64) as qq. lia.
+  intros c H. unfold utf8_cp.
+  destruct (N.ltb_spec c 128); [lia|].
+  generalize (c / 64) (c mod 64) (c / 4096) (c / 64 mod 64) (c / 262144) (c / 4096 mod 64). intros a b d e f g.
+  destruct (c <? 2048); [|destruct (c <? 65536)].
+  - split; [repeat (constructor; [lia|]); constructor|]. eexists _, _. split; [reflexivity|lia].
+  - split; [repeat (constructor; [lia|]); constructor|]. eexists _, _. split; [reflexivity|lia].
+  - split; [repeat (constructor; [lia|]); constructor|]. eexists _, _. split; [reflexivity|lia].
+Qed.
+
+Lemma utf8_head_not : forall k b, k < 128 -> b <> k -> exists x r, utf8_cp b = x :: r /\ x <> k.
+Proof.
+  intros k b Hk H. destruct (N.lt_ge_cases b 128) as [L|G].
+  - exists b, []. split; [apply utf8_cp_ascii; exact L|exact H].
+  - destruct (utf8_cp_high b G) as [_ (x & r & E & Hx)]. exists x, r. split; [exact E|lia].
+Qed.
+
+Lemma utf8_head_not_slash : forall b, b <> SLASH -> exists x r, utf8_cp b = x :: r /\ x <> SLASH.
+Proof. intros b H. apply utf8_head_not; [reflexivity|exact H]. Qed.
+
+Lemma wire_app : forall a b, wire (a ++ b) = wire a ++ wire b.
+Proof. intros a b. unfold wire. apply flat_map_app. Qed.
+
+Lemma wire_ascii : forall s, Forall (fun c => c < 128) s -> wire s = s.
+Proof.
+  induction 1 as [|c s Hc _ IH]; [reflexivity|].
+  unfold wire in *. cbn [flat_map]. rewrite IH, (utf8_cp_ascii c Hc). reflexivity.
 Qed.
 
 Lemma wire_same_host : forall u, same_host_path u = true -> same_host_path (wire u) = true.
@@ -54,7 +89,7 @@ Proof.
   - apply andb_true_iff in H as [Ha Hb]. apply N.eqb_eq in Ha; subst a.
     apply negb_true_iff in Hb. apply N.eqb_neq in Hb.
     destruct (utf8_head_not_slash b Hb) as (x & t & E & Hx).
-    unfold wire. cbn [flat_map]. rewrite E. change (utf8_small SLASH) with [SLASH].
+    unfold wire. cbn [flat_map]. rewrite E. change (utf8_cp SLASH) with [SLASH].
     cbn [app same_host_path]. rewrite N.eqb_refl. apply N.eqb_neq in Hx. rewrite Hx. reflexivity.
 Qed.
 
@@ -65,45 +100,99 @@ Proof.
   - destruct r as [|b r]; [reflexivity|].
     cbn [starts_with_2slash] in H. rewrite N.eqb_refl in H. cbn [andb] in H. apply N.eqb_neq in H.
     destruct (utf8_head_not_slash b H) as (x & t & E & Hx).
-    unfold wire. cbn [flat_map]. rewrite E. change (utf8_small SLASH) with [SLASH].
+    unfold wire. cbn [flat_map]. rewrite E. change (utf8_cp SLASH) with [SLASH].
     cbn [app starts_with_2slash]. apply N.eqb_neq in Hx. rewrite Hx. apply andb_false_r.
   - destruct (utf8_head_not_slash a Na) as (x & t & E & Hx).
     unfold wire. cbn [flat_map]. rewrite E. cbn [app]. apply N.eqb_neq in Hx.
-    destruct (t ++ flat_map utf8_small r); cbn [starts_with_2slash]; [reflexivity|]. rewrite Hx. reflexivity.
+    destruct (t ++ flat_map utf8_cp r); cbn [starts_with_2slash]; [reflexivity|]. rewrite Hx. reflexivity.
 Qed.
 
-Lemma with_query_shape : forall uri q, exists t, with_query uri q = uri ++ t /\ starts_with_slash t = false.
+Lemma with_query_shape : forall uri q, exists t, with_query uri q = uri ++ t /\ (t = [] \/ exists q', t = QMARK :: q').
 Proof.
   intros uri [|c q].
   - exists []. cbn. rewrite app_nil_r. auto.
-  - exists (QMARK :: c :: q). split; reflexivity.
+  - exists (QMARK :: c :: q). split; [reflexivity|right; eexists; reflexivity].
+Qed.
+
+Lemma tail_not_slash : forall t, (t = [] \/ exists q', t = QMARK :: q') -> starts_with_slash t = false.
+Proof. intros t [->|[q' ->]]; reflexivity. Qed.
+
+(* ---------- RequestHandler.redirect ---------- *)
+Theorem redirect_inv : forall hw url perm status st loc,
+  redirect hw url perm status = Redirect st loc ->
+  hw = false /\ loc = wire url /\ 300 <= st <= 399
+  /\ match status with None => st = (if perm then 301 else 302) | Some s => st = s end
+  /\ forallb valid_cp url = true /\ forallb valid_header_byte loc = true.
+Proof.
+  intros hw url perm status st loc H. unfold redirect in H.
+  destruct hw; [discriminate|].
+  destruct status as [s|].
+  - destruct ((300 <=? s) && (s <=? 399)) eqn:R; [|discriminate].
+    destruct (forallb valid_cp url) eqn:V; [|discriminate].
+    destruct (forallb valid_header_byte (wire url)) eqn:B; [|discriminate].
+    injection H as <- <-. apply andb_true_iff in R as [R1 R2]. apply N.leb_le in R1, R2.
+    repeat split; auto.
+  - destruct (forallb valid_cp url) eqn:V; [|discriminate].
+    destruct (forallb valid_header_byte (wire url)) eqn:B; [|discriminate].
+    injection H as <- <-. repeat split; auto; destruct perm; lia.
+Qed.
+
+Lemma redirect_perm_inv : forall url st loc,
+  redirect false url true None = Redirect st loc -> st = 301 /\ loc = wire url.
+Proof. intros url st loc H. apply redirect_inv in H as (_ & E & _ & S & _). auto. Qed.
+
+(* ---------- the path-derived redirects ---------- *)
+Lemma removeslash_inv : forall m p q st loc,
+  removeslash m p q = Redirect st loc ->
+  ends_with_slash p = true /\ is_get_or_head m = true /\ rstrip_slash p <> [] /\
+  starts_with_2slash (rstrip_slash p) = false /\ st = 301 /\ loc = wire (with_query (rstrip_slash p) q).
+Proof.
+  intros m p q st loc H. unfold removeslash in H.
+  destruct (ends_with_slash p); [|discriminate].
+  destruct (is_get_or_head m); [|discriminate].
+  destruct (rstrip_slash p) as [|a u] eqn:E; [discriminate|].
+  destruct (starts_with_2slash (a :: u)) eqn:E2; [discriminate|].
+  apply redirect_perm_inv in H as [-> ->]. repeat split; auto. discriminate.
+Qed.
+
+Lemma addslash_inv : forall m p q st loc,
+  addslash m p q = Redirect st loc ->
+  ends_with_slash p = false /\ is_get_or_head m = true /\
+  starts_with_2slash (p ++ [SLASH]) = false /\ st = 301 /\ loc = wire (with_query (p ++ [SLASH]) q).
+Proof.
+  intros m p q st loc H. unfold addslash in H.
+  destruct (ends_with_slash p); [discriminate|]. cbn [negb] in H.
+  destruct (is_get_or_head m); [|discriminate].
+  destruct (starts_with_2slash (p ++ [SLASH])) eqn:E2; [discriminate|].
+  apply redirect_perm_inv in H as [-> ->]. repeat split; auto.
+Qed.
+
+Lemma static_dir_inv : forall p st loc,
+  static_dir p = Redirect st loc ->
+  ends_with_slash p = false /\ starts_with_2slash p = false /\ st = 301 /\ loc = wire (p ++ [SLASH]).
+Proof.
+  intros p st loc H. unfold static_dir in H.
+  destruct (ends_with_slash p); [discriminate|]. cbn [negb] in H.
+  destruct (starts_with_2slash p) eqn:E2; [discriminate|].
+  apply redirect_perm_inv in H as [-> ->]. repeat split; auto.
 Qed.
 
 Theorem removeslash_safe : forall m p q st loc,
   removeslash m p q = Redirect st loc -> starts_with_slash p = true -> same_host_path loc = true.
 Proof.
-  intros m p q st loc H Hp. unfold removeslash in H.
-  destruct (ends_with_slash p); [|discriminate].
-  destruct (is_get_or_head m); [|discriminate].
-  destruct (rstrip_slash p) as [|a u] eqn:E; [discriminate|].
-  destruct (starts_with_2slash (a :: u)) eqn:E2; [discriminate|].
-  injection H as _ <-.
-  destruct (rstrip_prefix p) as [t Ht]. rewrite E in Ht.
-  assert (Ha : starts_with_slash (a :: u) = true).
-  { rewrite Ht in Hp. exact Hp. }
+  intros m p q st loc H Hp. apply removeslash_inv in H as (_ & _ & Hne & E2 & _ & ->).
+  destruct (rstrip_prefix p) as [t [Ht _]].
+  assert (Ha : starts_with_slash (rstrip_slash p) = true).
+  { destruct (rstrip_slash p) as [|a u]; [contradiction|]. rewrite Ht in Hp. exact Hp. }
   apply wire_same_host.
-  destruct (with_query_shape (a :: u) q) as [w [Ew Hw]]. rewrite Ew.
-  apply shp_app; [exact Ha|exact E2|intros _; exact Hw].
+  destruct (with_query_shape (rstrip_slash p) q) as [w [Ew Hw]]. rewrite Ew.
+  apply shp_app; [exact Ha|exact E2|intros _; apply tail_not_slash; exact Hw].
 Qed.
 
 Theorem addslash_safe : forall m p q st loc,
   addslash m p q = Redirect st loc -> starts_with_slash p = true -> same_host_path loc = true.
 Proof.
-  intros m p q st loc H Hp. unfold addslash in H.
-  destruct (negb (ends_with_slash p)); [|discriminate].
-  destruct (is_get_or_head m); [|discriminate].
-  destruct (starts_with_2slash (p ++ [SLASH])) eqn:E2; [discriminate|].
-  injection H as _ <-.
+  intros m p q st loc H Hp. apply addslash_inv in H as (_ & _ & E2 & _ & ->).
   apply wire_same_host.
   destruct (with_query_shape (p ++ [SLASH]) q) as [w [Ew Hw]]. rewrite Ew.
   apply shp_app; [|exact E2|].
@@ -114,10 +203,7 @@ Qed.
 Theorem static_dir_safe : forall p st loc,
   static_dir p = Redirect st loc -> starts_with_slash p = true -> same_host_path loc = true.
 Proof.
-  intros p st loc H Hp. unfold static_dir in H.
-  destruct (negb (ends_with_slash p)) eqn:En; [|discriminate].
-  destruct (starts_with_2slash p) eqn:E2; [discriminate|].
-  injection H as _ <-.
+  intros p st loc H Hp. apply static_dir_inv in H as (En & E2 & _ & ->).
   apply wire_same_host.
   apply shp_app; [exact Hp|exact E2|].
   intro E; subst p. discriminate.
@@ -135,40 +221,128 @@ Qed.
 Theorem removeslash_never_protocol_relative : forall m p q st loc,
   removeslash m p q = Redirect st loc -> starts_with_2slash loc = false.
 Proof.
-  intros m p q st loc H. unfold removeslash in H.
-  destruct (ends_with_slash p); [|discriminate].
-  destruct (is_get_or_head m); [|discriminate].
-  destruct (rstrip_slash p) as [|a u] eqn:E; [discriminate|].
-  destruct (starts_with_2slash (a :: u)) eqn:E2; [discriminate|].
-  injection H as _ <-.
+  intros m p q st loc H. apply removeslash_inv in H as (_ & _ & Hne & E2 & _ & ->).
   apply wire_not2.
-  destruct (with_query_shape (a :: u) q) as [w [Ew Hw]]. rewrite Ew.
-  apply not2_app; [discriminate|exact E2|intros; exact Hw].
+  destruct (with_query_shape (rstrip_slash p) q) as [w [Ew Hw]]. rewrite Ew.
+  apply not2_app; [exact Hne|exact E2|intros; apply tail_not_slash; exact Hw].
 Qed.
 
 Theorem addslash_never_protocol_relative : forall m p q st loc,
   addslash m p q = Redirect st loc -> starts_with_2slash loc = false.
 Proof.
-  intros m p q st loc H. unfold addslash in H.
-  destruct (negb (ends_with_slash p)); [|discriminate].
-  destruct (is_get_or_head m); [|discriminate].
-  destruct (starts_with_2slash (p ++ [SLASH])) eqn:E2; [discriminate|].
-  injection H as _ <-.
+  intros m p q st loc H. apply addslash_inv in H as (_ & _ & E2 & _ & ->).
   apply wire_not2.
   destruct (with_query_shape (p ++ [SLASH]) q) as [w [Ew Hw]]. rewrite Ew.
-  apply not2_app; [destruct p; discriminate|exact E2|intros; exact Hw].
+  apply not2_app; [destruct p; discriminate|exact E2|intros; apply tail_not_slash; exact Hw].
 Qed.
 
 Theorem static_dir_never_protocol_relative : forall p st loc,
   static_dir p = Redirect st loc -> starts_with_2slash loc = false.
 Proof.
-  intros p st loc H. unfold static_dir in H.
-  destruct (negb (ends_with_slash p)) eqn:En; [|discriminate].
-  destruct (starts_with_2slash p) eqn:E2; [discriminate|].
-  injection H as _ <-. apply wire_not2.
+  intros p st loc H. apply static_dir_inv in H as (En & E2 & _ & ->). apply wire_not2.
   destruct p as [|a [|b r]]; [reflexivity| |exact E2].
-  unfold ends_with_slash in En. cbn [rev app] in En. apply negb_true_iff in En.
+  unfold ends_with_slash in En. cbn [rev app] in En.
   cbn [app starts_with_2slash]. rewrite En. reflexivity.
+Qed.
+
+(* ---------- scheme scan ---------- *)
+Lemma scheme_char_lt128 : forall c, is_scheme_char c = true -> c < 128.
+Proof.
+  intros c H. unfold is_scheme_char, is_alpha in H.
+  repeat (apply orb_true_iff in H as [H|H]); try (apply andb_true_iff in H as [H1 H2]; apply N.leb_le in H2; lia);
+    apply N.eqb_eq in H; lia.
+Qed.
+
+Lemma alpha_scheme_char : forall c, is_alpha c = true -> is_scheme_char c = true.
+Proof. intros c H. unfold is_scheme_char. rewrite H. reflexivity. Qed.
+
+Lemma scheme_rest_app_stop : forall u c t, c <> 58 -> is_scheme_char c = false ->
+  scheme_rest (u ++ c :: t) = scheme_rest u.
+Proof.
+  induction u as [|x u IH]; intros c t Hc Hs.
+  - cbn [app scheme_rest]. apply N.eqb_neq in Hc. rewrite Hc, Hs. reflexivity.
+  - cbn [app scheme_rest]. rewrite IH by assumption. reflexivity.
+Qed.
+
+Lemma has_scheme_app_stop : forall u c t, c <> 58 -> is_scheme_char c = false ->
+  has_scheme (u ++ c :: t) = has_scheme u.
+Proof.
+  intros [|x u] c t Hc Hs.
+  - cbn [app has_scheme]. destruct (is_alpha c) eqn:A; [|reflexivity].
+    apply alpha_scheme_char in A. congruence.
+  - cbn [app has_scheme]. rewrite scheme_rest_app_stop by assumption. reflexivity.
+Qed.
+
+Lemma scheme_rest_wire : forall u, scheme_rest (wire u) = scheme_rest u.
+Proof.
+  induction u as [|c u IH]; [reflexivity|].
+  unfold wire in *. cbn [flat_map].
+  destruct (N.lt_ge_cases c 128) as [L|G].
+  - rewrite (utf8_cp_ascii c L). cbn [app scheme_rest]. rewrite IH. reflexivity.
+  - destruct (utf8_cp_high c G) as [_ (x & r & E & Hx)]. rewrite E. cbn [app scheme_rest].
+    assert (X1 : x =? 58 = false) by (apply N.eqb_neq; lia).
+    assert (C1 : c =? 58 = false) by (apply N.eqb_neq; lia).
+    assert (X2 : is_scheme_char x = false).
+    { destruct (is_scheme_char x) eqn:S; [apply scheme_char_lt128 in S; lia|reflexivity]. }
+    assert (C2 : is_scheme_char c = false).
+    { destruct (is_scheme_char c) eqn:S; [apply scheme_char_lt128 in S; lia|reflexivity]. }
+    rewrite X1, X2, C1, C2. reflexivity.
+Qed.
+
+Lemma has_scheme_wire : forall u, has_scheme (wire u) = has_scheme u.
+Proof.
+  intros [|c u]; [reflexivity|].
+  unfold wire. cbn [flat_map]. fold (wire u).
+  destruct (N.lt_ge_cases c 128) as [L|G].
+  - rewrite (utf8_cp_ascii c L). cbn [app has_scheme]. rewrite scheme_rest_wire. reflexivity.
+  - destruct (utf8_cp_high c G) as [_ (x & r & E & Hx)]. rewrite E. cbn [app has_scheme].
+    assert (X : is_alpha x = false).
+    { destruct (is_alpha x) eqn:S; [apply alpha_scheme_char, scheme_char_lt128 in S; lia|reflexivity]. }
+    assert (C : is_alpha c = false).
+    { destruct (is_alpha c) eqn:S; [apply alpha_scheme_char, scheme_char_lt128 in S; lia|reflexivity]. }
+    rewrite X, C. reflexivity.
+Qed.
+
+Lemma has_scheme_app_tail : forall u t, (t = [] \/ exists c t', t = c :: t' /\ c <> 58 /\ is_scheme_char c = false) ->
+  has_scheme (u ++ t) = has_scheme u.
+Proof.
+  intros u t [->|(c & t' & -> & Hc & Hs)]; [rewrite app_nil_r; reflexivity|].
+  apply has_scheme_app_stop; assumption.
+Qed.
+
+Lemma has_scheme_with_query : forall u q, has_scheme (with_query u q) = has_scheme u.
+Proof.
+  intros u q. destruct (with_query_shape u q) as [w [-> Hw]].
+  apply has_scheme_app_tail. destruct Hw as [->|[q' ->]]; [left; reflexivity|].
+  right. exists QMARK, q'. split; [reflexivity|split; [discriminate|reflexivity]].
+Qed.
+
+Lemma has_scheme_slash : forall u t, has_scheme (u ++ SLASH :: t) = has_scheme u.
+Proof. intros u t. apply has_scheme_app_stop; [discriminate|reflexivity]. Qed.
+
+(* the Location carries a scheme exactly when the request path does *)
+Theorem removeslash_scheme : forall m p q st loc,
+  removeslash m p q = Redirect st loc -> has_scheme loc = has_scheme p.
+Proof.
+  intros m p q st loc H. apply removeslash_inv in H as (_ & _ & _ & _ & _ & ->).
+  rewrite has_scheme_wire, has_scheme_with_query.
+  destruct (rstrip_prefix p) as [t [Ht Hs]]. rewrite Ht at 2.
+  destruct (slashes_shape t Hs) as [->|[t' ->]]; [rewrite app_nil_r; reflexivity|].
+  rewrite has_scheme_slash. reflexivity.
+Qed.
+
+Theorem addslash_scheme : forall m p q st loc,
+  addslash m p q = Redirect st loc -> has_scheme loc = has_scheme p.
+Proof.
+  intros m p q st loc H. apply addslash_inv in H as (_ & _ & _ & _ & ->).
+  rewrite has_scheme_wire, has_scheme_with_query. apply has_scheme_slash.
+Qed.
+
+Theorem static_dir_scheme : forall p st loc,
+  static_dir p = Redirect st loc -> has_scheme loc = has_scheme p.
+Proof.
+  intros p st loc H. apply static_dir_inv in H as (_ & _ & _ & ->).
+  rewrite has_scheme_wire. apply has_scheme_slash.
 Qed.
 
 (* the statement without the origin-form hypothesis is false of the faithful model *)
@@ -179,75 +353,115 @@ Proof.
   split; vm_compute; reflexivity.
 Qed.
 
-(* ---------- authenticated ---------- *)
-Definition url_safe (c : N) : bool := is_unreserved c || (c =? 37) || (c =? 43).
+(* ---------- the stricter reading: "\" counts as "/" ---------- *)
+Definition second_bad (u : text) : bool :=
+  match u with _ :: b :: _ => (b =? SLASH) || (b =? BACKSLASH) | _ => false end.
+Definition strict_path (loc : text) : bool := starts_with_slash loc && negb (second_bad loc).
 
-Lemma hexdigit_safe : forall n, n < 16 -> url_safe (hexdigit n) = true.
+Lemma strict_browser : forall loc, strict_path loc = true -> browser_same_host loc = true.
 Proof.
-  intros n H.
-  assert (C : n = 0 \/ n = 1 \/ n = 2 \/ n = 3 \/ n = 4 \/ n = 5 \/ n = 6 \/ n = 7 \/ n = 8 \/ n = 9
-              \/ n = 10 \/ n = 11 \/ n = 12 \/ n = 13 \/ n = 14 \/ n = 15) by lia.
-  repeat (destruct C as [->|C]; [reflexivity|]). subst; reflexivity.
+  intros [|a [|b r]] H; unfold strict_path in H; cbn in H; try discriminate.
+  - rewrite andb_true_r in H. apply N.eqb_eq in H; subst a. reflexivity.
+  - apply andb_true_iff in H as [Ha Hb]. apply N.eqb_eq in Ha; subst a.
+    apply negb_true_iff, orb_false_iff in Hb as [B1 B2].
+    unfold browser_same_host, unbackslash. cbn [map]. rewrite B2.
+    change (SLASH =? BACKSLASH) with false. cbn [same_host_path]. rewrite N.eqb_refl, B1. reflexivity.
 Qed.
 
-Lemma quote_byte_safe : forall b, b < 256 -> forallb url_safe (quote_byte b) = true.
+Lemma strict_app : forall u t,
+  starts_with_slash u = true -> second_bad u = false ->
+  (u = [SLASH] -> t = [] \/ exists q', t = QMARK :: q') ->
+  strict_path (u ++ t) = true.
 Proof.
-  intros b H. unfold quote_byte. destruct (is_unreserved b) eqn:U.
-  - cbn. unfold url_safe. rewrite U. reflexivity.
-  - destruct (b =? 32); [reflexivity|]. unfold pct. cbn [forallb].
-    rewrite !hexdigit_safe; [reflexivity| |].
-    + apply N.mod_lt. discriminate.
-    + apply N.div_lt_upper_bound; [discriminate|]. exact H.
+  intros [|a [|b r]] t H1 H2 H3; cbn in H1; try discriminate.
+  - apply N.eqb_eq in H1; subst a. destruct (H3 eq_refl) as [->|[q' ->]]; reflexivity.
+  - unfold strict_path. cbn [app starts_with_slash second_bad] in *. rewrite H1, H2. reflexivity.
 Qed.
 
-Lemma forallb_app' : forall {A} (f : A -> bool) a b, forallb f (a ++ b) = forallb f a && forallb f b.
-Proof. intros; apply forallb_app. Qed.
-
-Lemma utf8_small_bytes : forall c, c < 2048 -> Forall (fun b => b < 256) (utf8_small c).
+Lemma wire_strict : forall u, strict_path u = true -> strict_path (wire u) = true.
 Proof.
-  intros c H. unfold utf8_small. destruct (N.ltb_spec c 128).
-  - constructor; [lia|constructor].
-  - constructor; [|constructor; [|constructor]].
-    + assert (c / 64 < 32) by (apply N.div_lt_upper_bound; lia). lia.
-    + assert (c mod 64 < 64) by (apply N.mod_lt; discriminate). lia.
+  intros [|a [|b r]] H; unfold strict_path in H; cbn [starts_with_slash second_bad] in H; try discriminate.
+  - rewrite andb_true_r in H. apply N.eqb_eq in H; subst a. reflexivity.
+  - apply andb_true_iff in H as [Ha Hb]. apply N.eqb_eq in Ha; subst a.
+    apply negb_true_iff, orb_false_iff in Hb as [B1 B2]. apply N.eqb_neq in B1, B2.
+    unfold wire. cbn [flat_map]. change (utf8_cp SLASH) with [SLASH].
+    destruct (N.lt_ge_cases b 128) as [L|G].
+    + rewrite (utf8_cp_ascii b L). unfold strict_path. cbn [app starts_with_slash second_bad].
+      apply N.eqb_neq in B1, B2. rewrite B1, B2. reflexivity.
+    + destruct (utf8_cp_high b G) as [_ (x & t & E & Hx)]. rewrite E.
+      unfold strict_path. cbn [app starts_with_slash second_bad].
+      assert (X1 : x =? SLASH = false) by (apply N.eqb_neq; unfold SLASH; lia).
+      assert (X2 : x =? BACKSLASH = false) by (apply N.eqb_neq; unfold BACKSLASH; lia).
+      rewrite X1, X2. reflexivity.
 Qed.
 
-Theorem quote_plus_safe : forall s, Forall (fun c => c < 2048) s -> forallb url_safe (quote_plus s) = true.
+Lemma second_bad_of : forall u, starts_with_2slash u = false -> second_is_backslash u = false ->
+  starts_with_slash u = true -> second_bad u = false.
 Proof.
-  induction 1 as [|c s Hc Hs IH]; [reflexivity|].
-  unfold quote_plus in *. cbn [flat_map]. rewrite forallb_app, IH, andb_true_r.
-  pose proof (utf8_small_bytes c Hc) as B.
-  induction B as [|b bs Hb _ IHb]; [reflexivity|].
-  cbn [flat_map]. rewrite forallb_app, IHb, andb_true_r. apply quote_byte_safe; exact Hb.
+  intros [|a [|b r]] H2 Hb Hs; try reflexivity.
+  cbn in *. rewrite Hs in H2. cbn [andb] in H2. rewrite H2, Hb. reflexivity.
 Qed.
 
-Theorem authenticated_only_login_url : forall m login absl full uri st loc,
-  authenticated m login absl full uri = Redirect st loc ->
-  loc = login \/
-  exists nxt, (nxt = full \/ nxt = uri) /\ loc = login ++ QMARK :: NEXT_EQ ++ quote_plus nxt.
+Lemma second_is_backslash_prefix : forall u t, second_is_backslash (u ++ t) = false -> u <> [] ->
+  second_is_backslash u = false \/ exists a, u = [a].
 Proof.
-  intros m login absl full uri st loc H. unfold authenticated in H.
-  destruct (is_get_or_head m); [|discriminate].
-  destruct (mem_text QMARK login).
-  - injection H as _ <-. left; reflexivity.
-  - injection H as _ <-. right. destruct absl; [exists full|exists uri]; split; auto.
+  intros [|a [|b r]] t H Hn; [contradiction|right; eexists; reflexivity|left; exact H].
 Qed.
 
-Lemma is_prefix_app : forall p t, is_prefix p (p ++ t) = true.
-Proof. induction p as [|x p IH]; intro t; [reflexivity|]. cbn. rewrite N.eqb_refl, IH. reflexivity. Qed.
-
-Theorem authenticated_prefix : forall m login absl full uri st loc,
-  authenticated m login absl full uri = Redirect st loc -> is_prefix login loc = true.
+Theorem removeslash_browser : forall m p q st loc,
+  removeslash m p q = Redirect st loc -> starts_with_slash p = true -> second_is_backslash p = false ->
+  browser_same_host loc = true.
 Proof.
-  intros m login absl full uri st loc H.
-  destruct (authenticated_only_login_url _ _ _ _ _ _ _ H) as [->|[n [_ ->]]].
-  - rewrite <- (app_nil_r login) at 2. apply is_prefix_app.
-  - apply is_prefix_app.
+  intros m p q st loc H Hp Hb. apply removeslash_inv in H as (_ & _ & Hne & E2 & _ & ->).
+  destruct (rstrip_prefix p) as [t [Ht _]].
+  set (u := rstrip_slash p) in *.
+  assert (Ha : starts_with_slash u = true).
+  { destruct u as [|a u']; [contradiction|]. rewrite Ht in Hp. exact Hp. }
+  assert (Hb' : second_is_backslash u = false).
+  { rewrite Ht in Hb. destruct (second_is_backslash_prefix u t Hb Hne) as [X|[a ->]]; [exact X|reflexivity]. }
+  apply strict_browser, wire_strict.
+  destruct (with_query_shape u q) as [w [Ew Hw]]. rewrite Ew.
+  apply strict_app; [exact Ha|apply second_bad_of; assumption|intros _; exact Hw].
+Qed.
+
+Theorem addslash_browser : forall m p q st loc,
+  addslash m p q = Redirect st loc -> starts_with_slash p = true -> second_is_backslash p = false ->
+  browser_same_host loc = true.
+Proof.
+  intros m p q st loc H Hp Hb. apply addslash_inv in H as (_ & _ & E2 & _ & ->).
+  apply strict_browser, wire_strict.
+  destruct (with_query_shape (p ++ [SLASH]) q) as [w [Ew Hw]]. rewrite Ew.
+  apply strict_app.
+  - destruct p; [discriminate|exact Hp].
+  - apply second_bad_of; [exact E2| |destruct p; [discriminate|exact Hp]].
+    destruct p as [|a [|b r]]; [reflexivity|reflexivity|exact Hb].
+  - intro E. destruct p as [|a [|b r]]; cbn in E; discriminate.
+Qed.
+
+Theorem static_dir_browser : forall p st loc,
+  static_dir p = Redirect st loc -> starts_with_slash p = true -> second_is_backslash p = false ->
+  browser_same_host loc = true.
+Proof.
+  intros p st loc H Hp Hb. apply static_dir_inv in H as (En & E2 & _ & ->).
+  apply strict_browser, wire_strict.
+  destruct p as [|a [|b r]]; [discriminate| |].
+  - cbn in Hp. apply N.eqb_eq in Hp; subst a. discriminate.
+  - unfold strict_path. cbn [app starts_with_slash second_bad]. cbn in Hp, Hb, E2.
+    rewrite Hp in *. cbn [andb] in E2. rewrite E2, Hb. reflexivity.
+Qed.
+
+(* a raw backslash after the leading slash is echoed *)
+Theorem removeslash_backslash_refuted :
+  exists m p q st loc, starts_with_slash p = true /\ removeslash m p q = Redirect st loc /\ browser_same_host loc = false.
+Proof.
+  exists GET, [47;92;101;46;99;47], [], 301, [47;92;101;46;99].
+  repeat split; vm_compute; reflexivity.
 Qed.
 
 Example removeslash_example :
   removeslash GET [47;97;47;47] [120;61;49] = Redirect 301 [47;97;63;120;61;49]
   /\ removeslash GET [47;47;101;46;99;47] [] = Status 403
   /\ addslash GET [47;47;101] [] = Status 403
-  /\ addslash HEAD [47;97] [] = Redirect 301 [47;97;47].
+  /\ addslash HEAD [47;97] [] = Redirect 301 [47;97;47]
+  /\ removeslash GET [47;97;47] [233] = Redirect 301 [47;97;63;195;169].
 Proof. repeat split; reflexivity. Qed.
